@@ -198,9 +198,9 @@ func (ip *Inode) Resize(atxn *alloctxn.AllocTxn, sz uint64) bool {
 // Clears the bytes beyond sz in the block that contains sz, so that
 // they read as zero if the file grows again.
 func (ip *Inode) zeroTail(atxn *alloctxn.AllocTxn, sz uint64) {
-	blkno, alloc := ip.bmap(atxn, sz/disk.BlockSize)
-	if blkno == common.NULLBNUM || alloc {
-		return // a hole, which reads as zero
+	blkno, _ := ip.bmap(atxn, sz/disk.BlockSize)
+	if blkno == common.NULLBNUM {
+		return // no block, nothing to clear
 	}
 	buf := atxn.ReadBlock(blkno)
 	for b := sz % disk.BlockSize; b < disk.BlockSize; b++ {
